@@ -90,11 +90,12 @@ static void alloc_buf(buf_t* b)
   }
 }
 
+static int g_nofree = 0;
 static void free_buf(buf_t* b, int was_malloc)
 {
   if (was_malloc)
     free(b->mem);
-  else {
+  else if (!g_nofree) {
     g_op = "shared_free";
     SMPI_SHARED_FREE(b->mem);
   }
@@ -156,7 +157,8 @@ int main(int argc, char** argv)
     printf("HARNESS cannot open scenario\n");
     return 3;
   }
-  long ncases     = rd(f);
+  long ncases = rd(f);
+  g_nofree    = argc > 2;
   static char bsendbuf[1 << 16];
   for (long cs = 0; cs < ncases; cs++) {
     long id  = rd(f);
@@ -269,10 +271,8 @@ int main(int argc, char** argv)
           default: {
             g_op = "probe";
             MPI_Probe(src, tag, MPI_COMM_WORLD, &st);
-            int cnt;
-            MPI_Get_count(&st, MPI_BYTE, &cnt);
             g_op = "recv-after-probe";
-            MPI_Recv(p, cnt < rlen ? (int)rlen : cnt, MPI_BYTE, src, tag, MPI_COMM_WORLD, &st);
+            MPI_Recv(p, (int)rlen, MPI_BYTE, src, tag, MPI_COMM_WORLD, &st);
           }
         }
     }
@@ -289,6 +289,8 @@ int main(int argc, char** argv)
       } else {
         g_op = "wait-recv";
         MPI_Wait(&rq2, &st);
+        if (rmode == 2 && rq2 != MPI_REQUEST_NULL)
+          MPI_Request_free(&rq2);
       }
     }
     if (wr == src && rq != MPI_REQUEST_NULL) {
